@@ -228,8 +228,10 @@ def run_cell(case):
             n += 1
             b, got = cell.run(v)
             for c, msg in b:
-                if len(bad) < 6:
-                    bad.append((cls_of(ent, v, c), i, enc_inputs(ent, v), describe(ent, ed, sh, alias, v) + ': ' + msg))
+                k = cls_of(ent, v, c)
+                # at most 3 reports per distinct class (a frequent class must not hide a rarer one of the same cell)
+                if sum(1 for x in bad if x[0] == k) < 3 and len(bad) < 24:
+                    bad.append((k, i, enc_inputs(ent, v), describe(ent, ed, sh, alias, v) + ': ' + msg))
     finally:
         cell.close()
     return {'n': n, 'total': len(tuples), 'bad': bad, 'risky': risky, 'strategy': strategy}
